@@ -87,6 +87,11 @@ CHECKS = {
           "Generated search: 20 000 container histories and 120 end-to-end scripts per quick run (2 500 thorough) over four receiver types and three transports; contiguity, flags, no-strict-subset and completeness are decided from the payloads.",
           "Detach events only hit peers other than the one whose message is being read; completeness only for peers that stayed connected; >255 inbound frames from a raw peer are covered by C07.",
           "DESIGN.md §2 C02"),
+  "C09": ("fault_enumeration",
+          "enumerated cancellation points: every public send/recv future of 18 (socket type, operation, condition) scenarios is run once to completion on a current-thread runtime with tokio's paused clock counting its Pending polls and wake-ups, then re-run dropping it after each Pending, after each wake-up without another poll, and at 11 virtual times around the moment the blocking condition ends; sampled drop points for the same scenarios over tcp/ipc on a multi-thread runtime; C01/C02 accounting payloads + sentinel decide loss / duplicate / partial delivery and the next valid call",
+          "Every Pending index and wake-up index of each scenario under the paused single-thread schedule (complete for that schedule) + sampled drop points on a 2-thread runtime (52 quick, 720 thorough).",
+          "Scenarios are a fixed list (send without peer, send and send_multipart under back-pressure, parked recv with arrival, recv inside a multipart message, ROUTER and DEALER frame-by-frame sends); PUB/XPUB/XSUB sends never return Pending in these scenarios and are not listed; internal (timeout) cancellation is C14's subject. After a dropped send of a later ROUTER frame the continuation is a retry of that frame, not an abandoned message.",
+          "DESIGN.md §2 C09"),
   "C10": ("exploration",
           "model-based property testing (proptest): generated call histories on REQ (scripted responder, timeouts) and REP (1..3 requesters, replies carrying the request id) judged step by step by the reference alternation automaton; forced races through a process-wide schedule-point barrier right after the state check (two tasks on a 4-thread runtime)",
           "Generated histories (150 per socket type quick, 5000 thorough) over three transports + deterministic forced races; reply routing is decided from the payloads.",
